@@ -165,16 +165,26 @@ func (f c17Filter) admits(app *world.AppSpec) bool {
 	if len(f.Users) == 0 && len(f.Groups) == 0 {
 		return allow
 	}
-	for _, u := range f.Users {
-		if u == app.User {
-			return allow
+	// documented: a single entry that contains regular expression characters is an expression, otherwise the entries
+	// are names
+	match := func(entries []string, name string) bool {
+		if len(entries) == 1 && strings.ContainsAny(entries[0], "^$*+?()[{}|") {
+			re, err := regexp.Compile(entries[0])
+			return err == nil && re.MatchString(name)
 		}
+		for _, e := range entries {
+			if e == name {
+				return true
+			}
+		}
+		return false
+	}
+	if match(f.Users, app.User) {
+		return allow
 	}
 	for _, g := range app.Groups {
-		for _, fg := range f.Groups {
-			if g == fg {
-				return allow
-			}
+		if match(f.Groups, g) {
+			return allow
 		}
 	}
 	return !allow
